@@ -324,3 +324,16 @@ package layout
 //@   ensures covers_every_item: forall k int :: {items[k]} 0 <= k && k < len(items) ==> boxCovers(res, items[k].BBox)
 //@   loop 0:
 //@     invariant forall k int :: {items[k]} 0 <= k && k <= $i && k < len(items) ==> boxCovers(bbox, items[k].BBox)
+
+// ---- C09: the element list takes every paragraph exactly once unless a heading or a list overlaps it: paragraphs are
+// marked consumed under their POSITION in the paragraph list (the position the last loop asks for), and every paragraph
+// whose position is not marked becomes an element ----
+//@ func (*Analyzer) buildElementTree results (res)
+//@   property C09
+//@   flags nosafety
+//@   loop 1:
+//@     step only_the_position_of_this_paragraph_is_marked: forall k int :: {consumedParaIndices[k]} k != j ==> (has(consumedParaIndices, k) && consumedParaIndices[k]) == (has(prev(consumedParaIndices), k) && prev(consumedParaIndices)[k])
+//@   loop 3:
+//@     step only_the_position_of_this_paragraph_is_marked: forall k int :: {consumedParaIndices[k]} k != j ==> (has(consumedParaIndices, k) && consumedParaIndices[k]) == (has(prev(consumedParaIndices), k) && prev(consumedParaIndices)[k])
+//@   loop 4:
+//@     step unmarked_paragraph_becomes_an_element: len(elements) == prev(len(elements)) + ((has(consumedParaIndices, i) && consumedParaIndices[i]) ? 0 : 1)
